@@ -1,4 +1,5 @@
 """C09 - Socket.IO encoding round-trips, matches the v5 format, leaves its input intact."""
+import re
 from lib.vlib import gZ, gN, gnat, gbool, glist, gopt, gpair
 
 HDR = "From Coq Require Import String.\nFrom SioV Require Import Base.GoSem Sio.Json Sio.Header Sio.Binary Sio.Codec Sio.CodecCheck.\n"
@@ -153,7 +154,6 @@ def codec_suite(ctx, vh, name, args):
                                 shard=25)
     bad_agree = []
     n_fail, n_known = 0, 0
-    import re
     for i, (r, m) in enumerate(zip(kept, masks)):
         nums = [int(x) for x in re.findall(r"\d+", m)]
         om, km = nums[0], nums[1]
@@ -190,7 +190,7 @@ def codec_suite(ctx, vh, name, args):
 
 
 def json_suite(ctx, vh):
-    rows = ctx.vh_jsonl(vh, "siocodec", ["-mode", "json", "-seed", ctx.seed, "-n", 200 if ctx.quick else 10000])
+    rows = ctx.vh_jsonl(vh, "siocodec", ["-mode", "json", "-seed", ctx.seed, "-n", 150 if ctx.quick else 10000])
     if rows is None:
         return
     pterms, pexp, uterms, uexp = [], [], [], []
@@ -204,6 +204,8 @@ def json_suite(ctx, vh):
                 pass
         if r["parseok"] and r["float"]:
             continue  # numbers outside the integer fragment
+        if re.search(rb"\\u[dD][89a-fA-F]", bytes(r["text"])):
+            continue  # surrogate escapes are outside the modelled fragment
         exp = gopt("(%s)" % g_jb(r["parsed"])) if r["parseok"] else "None"
         uterms.append("(opt_eqb jb_eqb (option_map plain (jparse %s)) %s)" % (gbytes(r["text"]), exp))
     badp = ctx.coq_eval_cases("json_print", HDR, pterms, "(fun b : bool => b)", shard=150)
@@ -234,6 +236,6 @@ def run(ctx):
     if vh is None:
         return
     codec_suite(ctx, vh, "fixed", ["-mode", "fixed"])
-    codec_suite(ctx, vh, "generated", ["-mode", "codec", "-seed", ctx.seed, "-n", 100 if ctx.quick else 6000])
-    codec_suite(ctx, vh, "refused", ["-mode", "codec", "-hard", "-seed", int(ctx.seed) + 1, "-n", 30 if ctx.quick else 1500])
+    codec_suite(ctx, vh, "generated", ["-mode", "codec", "-seed", ctx.seed, "-n", 70 if ctx.quick else 6000])
+    codec_suite(ctx, vh, "refused", ["-mode", "codec", "-hard", "-seed", int(ctx.seed) + 1, "-n", 20 if ctx.quick else 1500])
     json_suite(ctx, vh)
